@@ -24,3 +24,5 @@ from . import gen_wraptol; GENERATORS["GenWrapTol"] = gen_wraptol.generate
 from . import gen_batch; GENERATORS["GenBatch"] = gen_batch.generate
 from . import gen_cuboid; GENERATORS["GenCuboid"] = gen_cuboid.generate
 from . import gen_core; GENERATORS["GenCore"] = gen_core.generate
+from . import gen_ifaces; GENERATORS["GenIfaces"] = gen_ifaces.generate
+from . import gen_cylmask; GENERATORS["GenCylMask"] = gen_cylmask.generate
